@@ -19,6 +19,7 @@ mod quote;
 mod scale;
 mod search;
 mod sut;
+mod updlog;
 
 use json::J;
 use model::{Case, MAX_UNIVERSE};
@@ -116,6 +117,11 @@ fn cmd_search(args: &[String]) -> i32 {
         i += 1;
     }
     let target = target.unwrap_or_else(|| die(USAGE));
+    // update events as a replication log (updlog.rs: updlog | updlog_strict | updlog_peek)
+    if updlog::is_target(&target) {
+        let deadline = max_seconds.map(|t| Instant::now() + Duration::from_secs_f64(t.max(0.0)));
+        return updlog::cmd_search(&target, universe, jobs, deadline);
+    }
     // causal-gap buffer / state-vector sync between replicas with gaps (gaps.rs: gapsync | gap_sv | gap_pending | gap_strict)
     if gaps::is_target(&target) {
         let deadline = max_seconds.map(|t| Instant::now() + Duration::from_secs_f64(t.max(0.0)));
@@ -147,7 +153,7 @@ fn cmd_search(args: &[String]) -> i32 {
         die(&format!("--universe must be in 1..={}", MAX_UNIVERSE));
     }
     let groups = search::groups_for(&target)
-        .unwrap_or_else(|| die(&format!("unknown target {:?}; targets: {} | {} | {} | {} | {}", target, search::TARGETS, ext::TARGETS, evt::TARGETS, stk::TARGETS, mapread::TARGETS)));
+        .unwrap_or_else(|| die(&format!("unknown target {:?}; targets: {} | {} | {} | {} | {} | {} | {}", target, search::TARGETS, ext::TARGETS, evt::TARGETS, stk::TARGETS, mapread::TARGETS, quote::TARGETS, updlog::TARGETS)));
     let mut s = Search {
         n: universe,
         seed,
@@ -221,8 +227,14 @@ fn cmd_replay(args: &[String]) -> i32 {
     if j.get("op").is_none() {
         die("replay: the JSON carries no case (no \"op\" field)");
     }
+    if updlog::owns(&j) {
+        return updlog::cmd_replay(&j).unwrap_or_else(|e| die(&format!("replay: {}", e)));
+    }
     if gaps::owns(&j) {
         return gaps::cmd_replay(&j).unwrap_or_else(|e| die(&format!("replay: {}", e)));
+    }
+    if quote::owns(&j) {
+        return quote::cmd_replay(&j).unwrap_or_else(|e| die(&format!("replay: {}", e)));
     }
     if mapread::owns(&j) {
         return mapread::cmd_replay(&j).unwrap_or_else(|e| die(&format!("replay: {}", e)));
